@@ -12,7 +12,7 @@
 From Coq Require Import List ZArith.
 From Coq Require Import Reals.
 From Flocq Require Import IEEE754.Binary IEEE754.Bits.
-From RtoscV Require Import Auto.F32 Auto.AutoModel Auto.AutoMapModel Auto.AutoProofs Auto.AutoMapProofs Auto.AutoRemapProofs Auto.AutoRegress.
+From RtoscV Require Import Auto.F32 Auto.AutoModel Auto.AutoMapModel Auto.AutoProofs Auto.AutoMapProofs Auto.AutoRemapProofs Auto.AutoRegress Auto.AutoMapRegress.
 Import ListNotations.
 Local Open Scope Z_scope.
 
@@ -89,11 +89,12 @@ Theorem C19_addr_type : forall logf_o expf_o ops n per r st mss,
   Forall (Forall (msg_bound (bound_params ops))) mss.
 Proof. exact run_addr_type. Qed.
 
-(* a float-typed linear parameter receives a value inside [min,max]: by the
-   clamp on the final value, no arithmetic fact needed (value not NaN) *)
+(* a float-typed linear parameter receives a value inside [min,max], whatever
+   the slot value, gain and offset (NaN and infinities included): by the clamp
+   on the final value, no arithmetic fact needed *)
 Theorem C19_in_range : forall (expf_o : f32 -> f32) s value,
   used s = true -> s_type s = ch_f -> s_scale s = 0 ->
-  fle (s_min s) (s_max s) -> not_nan (lin value (cp1 s) (cp3 s)) ->
+  fle (s_min s) (s_max s) ->
   exists c, sub_output expf_o s value = [MsgF (s_path s) c] /\ fle (s_min s) c /\ fle c (s_max s).
 Proof. exact float_output_in_range. Qed.
 
@@ -103,7 +104,6 @@ Theorem C19_in_range_int : forall (expf_o : f32 -> f32) s value a b,
   finite32 (s_min s) -> finite32 (s_max s) ->
   val (s_min s) = IZR a -> val (s_max s) = IZR b -> a <= b ->
   -2147483648 <= a -> b <= 2147483647 ->
-  not_nan (lin value (cp1 s) (cp3 s)) ->
   exists z, sub_output expf_o s value = [MsgI (s_path s) z] /\ a <= z <= b.
 Proof. exact int_output_in_range. Qed.
 
@@ -193,3 +193,12 @@ Theorem C19_monotone_nonvacuous_remap :
   ex_sub = remap ex_sub0 /\ (0 <= val (gain ex_sub0))%R /\
   used ex_sub0 = true /\ s_type ex_sub0 = ch_f /\ s_scale ex_sub0 = 0.
 Proof. exact ex_sub_is_remap. Qed.
+
+(* regression: the clamp as it was lets NaN through (gain 3e38, slot value 0.5) *)
+Theorem C19_in_range_regress :
+  let v := lin f32_half (cp1 huge_gain_sub) (cp3 huge_gain_sub) in
+  bits_of_b32 (cp1 huge_gain_sub) = 4286578688 /\
+  bits_of_b32 (cp3 huge_gain_sub) = 2139095040 /\
+  is_nan 24 128 (clamp_old v (s_min huge_gain_sub) (s_max huge_gain_sub)) = true /\
+  bits_of_b32 (clamp v (s_min huge_gain_sub) (s_max huge_gain_sub)) = 3212836864.
+Proof. exact nan_clamp_refuted. Qed.
